@@ -168,6 +168,7 @@ def coq_make(targets=None, timeout=3000, jobs=16):
 def coqc_text(name: str, text: str, timeout=300):
     """Compile a scratch file under coq/cases and return (rc, stdout, stderr)."""
     CASES.mkdir(exist_ok=True)
+    name = f"{name}_p{os.getpid()}"
     f = CASES / f"{name}.v"
     f.write_text(text)
     rc, out, err, dt = sh(["timeout", str(timeout), "coqc", "-q"] + COQ_FLAGS + [str(f)],
